@@ -1153,3 +1153,63 @@ def r_own_mapper(repo, tier):
     if n < 2:
         raise AnalysisError("R-OWN: stores to self.__map not found in mapper.__setitem__")
     return out
+
+
+# ======================================================================================= rebuilds keep size and endianness
+def r_rebuild(repo, tier):
+    out = RuleOut(
+        "R-REBUILD",
+        "a memory expression rebuilt from an existing one keeps its attributes: every `mem(...)` constructed in "
+        "cas/expressions.py or cas/mapper.py from an address derived from `<S>.a` (the address of an existing mem S) passes "
+        "a size explicitly (the constructor's default is 32 bits) and passes `endian=<S>.endian` (the default is little endian)",
+    )
+    n = 0
+    for rel in (EXPR, "amoco/cas/mapper.py"):
+        m = repo.mod(rel)
+        for f in m.functions.values():
+            calls = [c for c in _walk_no_nested(f.node) if isinstance(c, ast.Call) and isinstance(c.func, ast.Name) and c.func.id == "mem"]
+            if not calls:
+                continue
+            # names derived from <S>.a : name -> S text
+            src = {}
+            changed = True
+            while changed:
+                changed = False
+                for x in _walk_no_nested(f.node):
+                    if isinstance(x, ast.Assign) and isinstance(x.targets[0], ast.Name):
+                        S = _mem_source(x.value, src)
+                        if S and src.get(x.targets[0].id) != S:
+                            src[x.targets[0].id] = S
+                            changed = True
+            for c in calls:
+                if not c.args:
+                    continue
+                S = _mem_source(c.args[0], src)
+                if S is None:
+                    continue
+                n += 1
+                kw = {k.arg: k.value for k in c.keywords if k.arg}
+                has_size = len(c.args) >= 2 or "size" in kw
+                end = kw.get("endian")
+                if end is None and len(c.args) >= 6:
+                    end = c.args[5]
+                ok_end = end is not None and norm(end) == "%s.endian" % S
+                out.inst("%s::%s" % (f.key, norm(c)[:70]), {"function": f.dqual, "call": norm(c)[:90], "source_mem": S, "size_passed": has_size, "endian": norm(end) if end is not None else None})
+                if not has_size:
+                    out.report(rel, f.dqual, "mem rebuilt without size: %s" % norm(c)[:80], c.lineno, "%s rebuilds a memory expression from %s without passing its size: the constructor default (32 bits) replaces the real width" % (f.dqual, S))
+                if not ok_end:
+                    out.report(rel, f.dqual, "mem rebuilt without endian: %s" % norm(c)[:80], c.lineno, "%s rebuilds a memory expression from %s without `endian=%s.endian`: the result silently becomes little-endian, so a big-endian location is read/concretised byte-swapped" % (f.dqual, S, S))
+    out.stats["rebuild_sites"] = n
+    if n < 4:
+        raise AnalysisError("R-REBUILD: only %d mem rebuild sites found" % n)
+    return out
+
+
+def _mem_source(e, src):
+    """the existing mem S whose address `S.a` the expression e is derived from (text), or None"""
+    for x in ast.walk(e):
+        if isinstance(x, ast.Attribute) and x.attr == "a" and isinstance(x.ctx, ast.Load):
+            return norm(x.value)
+        if isinstance(x, ast.Name) and x.id in src:
+            return src[x.id]
+    return None
